@@ -34,7 +34,7 @@ pub mod layout {
     // compile-time crate paths (`env!("CARGO_MANIFEST_DIR")`) name the repository crate: build.rs
     // overrides that variable for this compilation
     include!(concat!(env!("OUT_DIR"), "/generate_layout.rs"));
-    pub fn run() {
+    pub fn __gensim_entry() {
         super::MainReturn::finish(main());
         crate::seams::main_returned();
     }
@@ -70,7 +70,7 @@ pub mod likely {
     // compile-time crate paths (`env!("CARGO_MANIFEST_DIR")`) name the repository crate: build.rs
     // overrides that variable for this compilation
     include!(concat!(env!("OUT_DIR"), "/generate_likelysubtags.rs"));
-    pub fn run() {
+    pub fn __gensim_entry() {
         super::MainReturn::finish(main());
         crate::seams::main_returned();
     }
